@@ -25,13 +25,13 @@ Section VecProofs.
   Variable dflt : T.
   Variable teqb : T -> T -> bool.
 
-  Definition vec_wf (v : vec T) : Prop := vsize T v <= length (vdata T v).
+  Notation vec_wf := (vec_wf T).
 
   Lemma contents_mk : forall d s, vec_contents T (mkvec T d s) = firstn s d.
   Proof. reflexivity. Qed.
 
   Lemma contents_length : forall v, vec_wf v -> length (vec_contents T v) = vsize T v.
-  Proof. intros v H. unfold vec_contents. rewrite firstn_length. unfold vec_wf in H. lia. Qed.
+  Proof. intros v H. unfold vec_contents. rewrite firstn_length. unfold Model.vec_wf in H. lia. Qed.
 
   Lemma vec_grow_ok : forall v,
     exists k, 0 < k /\ vec_grow T dflt v = Ok (mkvec T (vdata T v ++ repeat dflt k) (vsize T v)).
@@ -50,16 +50,16 @@ Section VecProofs.
   Lemma vec_push_ok : forall x v, vec_wf v ->
     exists v', vec_push T dflt x v = Ok v' /\ vec_wf v' /\ vec_contents T v' = vec_contents T v ++ [x].
   Proof.
-    intros x [d s] W. unfold vec_wf in W; cbn in W. unfold vec_push, vec_cap; cbn [vdata vsize].
+    intros x [d s] W. unfold Model.vec_wf in W; cbn in W. unfold vec_push, vec_cap; cbn [vdata vsize].
     destruct (Nat.ltb_spec (length d) (S s)).
     - destruct (vec_grow_ok (mkvec T d s)) as (k & Hk & ->). cbn [rbind vdata vsize].
       rewrite sset_ok by (rewrite app_length, repeat_length; lia). cbn [rbind].
       eexists; split; [reflexivity|]. split.
-      + unfold vec_wf; cbn. rewrite length_overwrite; rewrite app_length, repeat_length; cbn; lia.
+      + unfold Model.vec_wf; cbn. rewrite length_overwrite; rewrite app_length, repeat_length; cbn; lia.
       + rewrite !contents_mk. list_eq.
     - cbn [rbind vdata vsize]. rewrite sset_ok by lia. cbn [rbind].
       eexists; split; [reflexivity|]. split.
-      + unfold vec_wf; cbn. rewrite length_overwrite; cbn; lia.
+      + unfold Model.vec_wf; cbn. rewrite length_overwrite; cbn; lia.
       + rewrite !contents_mk. list_eq.
   Qed.
 
@@ -71,14 +71,14 @@ Section VecProofs.
     | None => vec_pop T v = Trap TrapPopEmpty
     end.
   Proof.
-    intros [d s] W. unfold vec_wf in W; cbn in W. unfold vec_pop; cbn [vdata vsize].
+    intros [d s] W. unfold Model.vec_wf in W; cbn in W. unfold vec_pop; cbn [vdata vsize].
     rewrite contents_mk, nthe_firstn.
     destruct (Nat.eqb_spec s 0) as [->|E].
     - cbn. reflexivity.
     - destruct (Nat.ltb_spec (s - 1) s); [|lia].
       destruct (sget_ok T (s - 1) d ltac:(lia)) as (x & Hg & Hn). rewrite Hn, Hg. cbn [rbind].
       eexists; split; [reflexivity|]. split.
-      + unfold vec_wf; cbn; lia.
+      + unfold Model.vec_wf; cbn; lia.
       + rewrite contents_mk. list_eq.
   Qed.
 
@@ -88,7 +88,7 @@ Section VecProofs.
     else exists v', vec_insert T dflt pos x v = Ok v' /\ vec_wf v' /\
                     vec_contents T v' = l_insert T pos x (vec_contents T v).
   Proof.
-    intros pos x [d s] W. unfold vec_wf in W; cbn in W. unfold vec_insert, vec_cap; cbn [vdata vsize].
+    intros pos x [d s] W. unfold Model.vec_wf in W; cbn in W. unfold vec_insert, vec_cap; cbn [vdata vsize].
     destruct (Nat.ltb_spec s pos); [reflexivity|].
     assert (exists d1, (if length d <=? s + 1 then vec_grow T dflt (mkvec T d s) else Ok (mkvec T d s)) = Ok (mkvec T d1 s)
                        /\ s + 1 < length d1 + 0 + (if length d <=? s + 1 then 1 else 0) /\ s + 1 <= length d1
@@ -106,7 +106,7 @@ Section VecProofs.
     - rewrite smove_ok by lia. cbn [rbind].
       rewrite sset_ok by (rewrite length_overwrite; rewrite ?length_move_block; lia). cbn [rbind].
       eexists; split; [reflexivity|]. split.
-      + unfold vec_wf; cbn. rewrite !length_overwrite; rewrite ?length_move_block; cbn; try lia.
+      + unfold Model.vec_wf; cbn. rewrite !length_overwrite; rewrite ?length_move_block; cbn; try lia.
         rewrite length_overwrite; rewrite ?length_move_block; lia.
       + rewrite !contents_mk. unfold l_insert.
         apply nth_error_ext; intro i.
@@ -118,7 +118,7 @@ Section VecProofs.
     - assert (pos = s) by lia. subst pos. cbn [rbind].
       rewrite sset_ok by lia. cbn [rbind].
       eexists; split; [reflexivity|]. split.
-      + unfold vec_wf; cbn. rewrite length_overwrite; cbn; lia.
+      + unfold Model.vec_wf; cbn. rewrite length_overwrite; cbn; lia.
       + rewrite !contents_mk. unfold l_insert.
         apply nth_error_ext; intro i.
         rewrite nthe_firstn, nthe_overwrite_in by (cbn; lia).
@@ -134,21 +134,21 @@ Section VecProofs.
     | None => vec_remove T pos v = Trap TrapPos
     end.
   Proof.
-    intros pos [d s] W. unfold vec_wf in W; cbn in W. unfold vec_remove; cbn [vdata vsize].
+    intros pos [d s] W. unfold Model.vec_wf in W; cbn in W. unfold vec_remove; cbn [vdata vsize].
     rewrite contents_mk, nthe_firstn.
     destruct (Nat.ltb_spec pos s); destruct (Nat.leb_spec s pos); try lia.
     - destruct (sget_ok T pos d ltac:(lia)) as (x & Hg & Hn). rewrite Hn, Hg. cbn [rbind].
       destruct (Nat.ltb_spec pos (s - 1)).
       + rewrite smove_ok by lia. cbn [rbind].
         eexists; split; [reflexivity|]. split.
-        * unfold vec_wf; cbn. rewrite length_overwrite; rewrite ?length_move_block; lia.
+        * unfold Model.vec_wf; cbn. rewrite length_overwrite; rewrite ?length_move_block; lia.
         * rewrite !contents_mk. unfold l_remove.
           apply nth_error_ext; intro i.
           rewrite nthe_firstn, nthe_overwrite_in by (rewrite ?length_move_block; lia).
           rewrite length_move_block by lia.
           autorewrite with nthe. ltb_cases; nth_close.
       + cbn [rbind]. eexists; split; [reflexivity|]. split.
-        * unfold vec_wf; cbn; lia.
+        * unfold Model.vec_wf; cbn; lia.
         * rewrite !contents_mk. unfold l_remove.
           apply nth_error_ext; intro i. autorewrite with nthe. ltb_cases; nth_close.
     - reflexivity.
@@ -183,7 +183,7 @@ Section VecProofs.
     | None => vec_removevalue T teqb x v = Ok (v, false)
     end.
   Proof.
-    intros x v W. unfold vec_removevalue. rewrite vec_scan_ok by (unfold vec_wf in W; lia).
+    intros x v W. unfold vec_removevalue. rewrite vec_scan_ok by (unfold Model.vec_wf in W; lia).
     cbn [skipn]. change (firstn (vsize T v) (vdata T v)) with (vec_contents T v).
     destruct (l_index T teqb x (vec_contents T v)) as [i|] eqn:E; cbn [option_map rbind Nat.add]; [|reflexivity].
     pose proof (l_index_lt _ _ _ E) as Hi.
@@ -226,10 +226,10 @@ Section VecProofs.
     exists v', vec_removeif T pred v = Ok v' /\ vec_wf v' /\
                vec_contents T v' = filter (fun e => negb (pred e)) (vec_contents T v).
   Proof.
-    intros pred [d s] W. unfold vec_wf in W; cbn in W. unfold vec_removeif; cbn [vdata vsize].
+    intros pred [d s] W. unfold Model.vec_wf in W; cbn in W. unfold vec_removeif; cbn [vdata vsize].
     destruct (vec_rif_ok pred s 0 0 d ltac:(lia) ltac:(lia)) as (d' & -> & L & F). cbn [rbind fst snd skipn plus] in *.
     eexists; split; [reflexivity|]. split.
-    - unfold vec_wf; cbn. rewrite L.
+    - unfold Model.vec_wf; cbn. rewrite L.
       pose proof (filter_len_le T (fun e => negb (pred e)) (firstn s d)). rewrite firstn_length in H. lia.
     - rewrite !contents_mk. exact F.
   Qed.
@@ -239,7 +239,7 @@ Section VecProofs.
     vec_wf (vec_reserve T dflt n v) /\ vec_contents T (vec_reserve T dflt n v) = vec_contents T v /\
     n <= length (vdata T (vec_reserve T dflt n v)) /\ vsize T (vec_reserve T dflt n v) = vsize T v.
   Proof.
-    intros n [d s] W. unfold vec_wf in *; cbn in W. unfold vec_reserve, vec_cap; cbn [vdata vsize].
+    intros n [d s] W. unfold Model.vec_wf in *; cbn in W. unfold vec_reserve, vec_cap; cbn [vdata vsize].
     destruct (Nat.leb_spec n (length d)); cbn [vdata vsize].
     - auto.
     - rewrite length_srealloc. repeat split; try lia.
@@ -251,28 +251,28 @@ Section VecProofs.
   Proof.
     intros n v W. unfold vec_resize.
     destruct (vec_reserve_ok n v W) as (W1 & C1 & L1 & S1).
-    destruct (vec_reserve T dflt n v) as [d1 s1]; cbn [vdata vsize] in *. unfold vec_wf in W1; cbn in W1.
+    destruct (vec_reserve T dflt n v) as [d1 s1]; cbn [vdata vsize] in *. unfold Model.vec_wf in W1; cbn in W1.
     rewrite contents_mk in C1. unfold l_resize. rewrite <- C1, firstn_length.
     destruct (Nat.ltb_spec s1 n).
     - rewrite sfill_ok by lia. cbn [rbind]. eexists; split; [reflexivity|]. split.
-      + unfold vec_wf; cbn. rewrite length_overwrite; rewrite ?repeat_length; lia.
+      + unfold Model.vec_wf; cbn. rewrite length_overwrite; rewrite ?repeat_length; lia.
       + rewrite contents_mk. apply nth_error_ext; intro i.
         rewrite nthe_firstn, nthe_overwrite_in by (rewrite repeat_length; lia).
         autorewrite with nthe. ltb_cases; nth_close.
     - cbn [rbind]. eexists; split; [reflexivity|]. split.
-      + unfold vec_wf; cbn; lia.
+      + unfold Model.vec_wf; cbn; lia.
       + rewrite contents_mk. apply nth_error_ext; intro i. autorewrite with nthe. ltb_cases; nth_close.
   Qed.
 
   Lemma vec_clear_ok : forall v, vec_wf (vec_clear T v) /\ vec_contents T (vec_clear T v) = [].
-  Proof. intros [d s]. unfold vec_wf, vec_clear; cbn. split; [lia|reflexivity]. Qed.
+  Proof. intros [d s]. unfold Model.vec_wf, vec_clear; cbn. split; [lia|reflexivity]. Qed.
 
   Lemma vec_copy_ok : forall v, vec_wf v ->
     vec_wf (vec_copy T v) /\ vec_contents T (vec_copy T v) = vec_contents T v.
   Proof.
     intros [d s] W. unfold vec_copy; cbn [vsize vdata]. destruct (Nat.ltb_spec 0 s).
     - auto.
-    - assert (s = 0) by lia; subst. unfold vec_wf, vec_empty; cbn. split; [lia|reflexivity].
+    - assert (s = 0) by lia; subst. unfold Model.vec_wf, vec_empty; cbn. split; [lia|reflexivity].
   Qed.
 
   Lemma vec_at_ok : forall pos v, vec_wf v ->
@@ -281,7 +281,7 @@ Section VecProofs.
     | None => vec_at T pos v = Trap TrapPos
     end.
   Proof.
-    intros pos [d s] W. unfold vec_wf in W; cbn in W. unfold vec_at; cbn [vdata vsize].
+    intros pos [d s] W. unfold Model.vec_wf in W; cbn in W. unfold vec_at; cbn [vdata vsize].
     rewrite contents_mk, nthe_firstn.
     destruct (Nat.ltb_spec pos s); destruct (Nat.leb_spec s pos); try lia; [|reflexivity].
     destruct (sget_ok T pos d ltac:(lia)) as (x & Hg & Hn). rewrite Hn, Hg. reflexivity.
@@ -293,17 +293,17 @@ Section VecProofs.
     else vec_assign T pos x v = Trap TrapPos.
   Proof.
     intros pos x v W. rewrite contents_length by assumption.
-    destruct v as [d s]. unfold vec_wf in W; cbn in W. unfold vec_assign; cbn [vdata vsize].
+    destruct v as [d s]. unfold Model.vec_wf in W; cbn in W. unfold vec_assign; cbn [vdata vsize].
     destruct (Nat.ltb_spec pos s); destruct (Nat.leb_spec s pos); try lia; [|reflexivity].
     rewrite sset_ok by lia. cbn [rbind]. eexists; split; [reflexivity|]. split.
-    - unfold vec_wf; cbn. rewrite length_overwrite; cbn; lia.
+    - unfold Model.vec_wf; cbn. rewrite length_overwrite; cbn; lia.
     - rewrite !contents_mk. unfold l_assign. apply nth_error_ext; intro i.
       rewrite nthe_firstn, nthe_overwrite_in by (cbn; lia).
       autorewrite with nthe. cbn [length]. ltb_cases; nth_close.
   Qed.
 
   Lemma vec_empty_wf' : vec_wf (vec_empty T) /\ vec_contents T (vec_empty T) = [].
-  Proof. unfold vec_wf, vec_empty; cbn. split; [lia|reflexivity]. Qed.
+  Proof. unfold Model.vec_wf, vec_empty; cbn. split; [lia|reflexivity]. Qed.
 
   (* ---------------- __convert / destroy *)
   Lemma fill_from_ok : forall xs i d, i + length xs <= length d ->
@@ -326,10 +326,10 @@ Section VecProofs.
     intros xs. unfold vec_convert, vec_reserve, vec_cap, vec_empty; cbn [vdata vsize length].
     destruct (Nat.leb_spec (length xs) 0).
     - assert (xs = []) as -> by (apply length_zero_iff_nil; lia). cbn. eexists; split; [reflexivity|].
-      split; [unfold vec_wf; cbn; lia|reflexivity].
+      split; [unfold Model.vec_wf; cbn; lia|reflexivity].
     - cbn [vdata]. rewrite fill_from_ok by (rewrite length_srealloc; lia). cbn [rbind].
       eexists; split; [reflexivity|]. split.
-      + unfold vec_wf; cbn [vdata vsize]. rewrite length_overwrite by (rewrite length_srealloc; lia). rewrite length_srealloc. lia.
+      + unfold Model.vec_wf; cbn [vdata vsize]. rewrite length_overwrite by (rewrite length_srealloc; lia). rewrite length_srealloc. lia.
       + rewrite contents_mk. apply nth_error_ext; intro j.
         rewrite nthe_firstn, nthe_overwrite_in by (rewrite length_srealloc; lia).
         ltb_cases; nth_close; try (symmetry; apply nthe_beyond; lia).
@@ -377,16 +377,8 @@ Section VecProofs.
   Qed.
 
   (* a history: run until the first trap; collects the return values *)
-  Fixpoint vec_run (ops : list (cop T)) (v : vec T) : res (vec T * list (cret T)) :=
-    match ops with
-    | [] => Ok (v, [])
-    | o :: tl => p <- vec_step T dflt teqb o v ;; q <- vec_run tl (fst p) ;; Ok (fst q, snd p :: snd q)
-    end.
-  Fixpoint lst_run (ops : list (cop T)) (l : list T) : res (list T * list (cret T)) :=
-    match ops with
-    | [] => Ok (l, [])
-    | o :: tl => p <- lst_step T dflt teqb o l ;; q <- lst_run tl (fst p) ;; Ok (fst q, snd p :: snd q)
-    end.
+  Notation vec_run := (vec_run T dflt teqb).
+  Notation lst_run := (lst_run T dflt teqb).
 
   Theorem vec_run_refines : forall ops v, vec_wf v ->
     match lst_run ops (vec_contents T v) with
@@ -394,7 +386,7 @@ Section VecProofs.
     | Trap t => vec_run ops v = Trap t
     end.
   Proof.
-    induction ops as [|o tl IH]; intros v W; cbn [lst_run vec_run].
+    induction ops as [|o tl IH]; intros v W; cbn [Model.lst_run Model.vec_run].
     - eauto.
     - pose proof (vec_step_refines o v W) as S. unfold vec_refines in S.
       destruct (lst_step T dflt teqb o (vec_contents T v)) as [[l1 r1]|t]; cbn [rbind fst snd].
@@ -406,5 +398,5 @@ Section VecProofs.
   Qed.
 
   Lemma vec_empty_wf : vec_wf (vec_empty T) /\ vec_contents T (vec_empty T) = [].
-  Proof. unfold vec_wf, vec_empty; cbn. split; [lia|reflexivity]. Qed.
+  Proof. unfold Model.vec_wf, vec_empty; cbn. split; [lia|reflexivity]. Qed.
 End VecProofs.
